@@ -1,7 +1,13 @@
 package main
 
 import (
+	"bytes"
+	"flag"
+	"fmt"
+	"io"
 	"math/rand"
+
+	lz4 "github.com/pierrec/lz4/v4"
 
 	"lz4verif/ref"
 )
@@ -127,3 +133,126 @@ func buildLinked(p linkedPlan) (frame, content []byte) {
 	o := ref.FrameOpts{Code: p.Code, Indep: false, BlockCS: p.BCS, ContCS: p.CCS}
 	return ref.EncodeFrame(o, blks, content), content
 }
+
+func init() { register("big-linked", bigLinked) }
+
+// genLinked streams a frame with dependent 4 MiB blocks whose content is all 'A': the first block is three
+// literals, a run (offset 1) and five literals; every later block is one literal, a match at offset 65535 (its
+// source lies in the preceding block) and five literals.  No checksums.
+type genLinked struct {
+	blocks int
+	k      int
+	cur    []byte
+	first  []byte
+	next   []byte
+	done   bool
+}
+
+func lenBytes(n int) []byte {
+	var out []byte
+	for n >= 255 {
+		out = append(out, 255)
+		n -= 255
+	}
+	return append(out, byte(n))
+}
+
+func newGenLinked(blocks int) *genLinked {
+	const bs = 4 << 20
+	mk := func(lits, off int) []byte {
+		m := bs - lits - 5
+		b := []byte{byte(lits<<4 | 15)}
+		for i := 0; i < lits; i++ {
+			b = append(b, 'A')
+		}
+		b = append(b, byte(off), byte(off>>8))
+		b = append(b, lenBytes(m-4-15)...)
+		b = append(b, 0x50, 'A', 'A', 'A', 'A', 'A')
+		return b
+	}
+	wrap := func(b []byte) []byte {
+		n := len(b)
+		return append([]byte{byte(n), byte(n >> 8), byte(n >> 16), byte(n >> 24)}, b...)
+	}
+	g := &genLinked{blocks: blocks, first: wrap(mk(3, 1)), next: wrap(mk(1, 65535))}
+	hdr := []byte{0x04, 0x22, 0x4D, 0x18, 0x40, 0x70}
+	hdr = append(hdr, byte(ref.XXH32(hdr[4:6])>>8))
+	g.cur = hdr
+	return g
+}
+
+func (g *genLinked) Read(p []byte) (int, error) {
+	for len(g.cur) == 0 {
+		switch {
+		case g.k < g.blocks:
+			if g.k == 0 {
+				g.cur = g.first
+			} else {
+				g.cur = g.next
+			}
+			g.k++
+		case !g.done:
+			g.cur = []byte{0, 0, 0, 0}
+			g.done = true
+		default:
+			return 0, io.EOF
+		}
+	}
+	n := copy(p, g.cur)
+	g.cur = g.cur[n:]
+	return n, nil
+}
+
+// bigLinked decodes such a frame of --blocks blocks (1026 blocks = 4 GiB + 8 MiB: the Reader's 32-bit byte
+// counters wrap on the way) and reports length and content of what was delivered.
+func bigLinked(args []string) error {
+	fs := flag.NewFlagSet("big-linked", flag.ExitOnError)
+	blocks := fs.Int("blocks", 1026, "")
+	conc := fs.Int("conc", 1, "")
+	mode := fs.String("mode", "read", "")
+	buf := fs.Int("buf", 1<<20, "")
+	fs.Parse(args)
+	zr := lz4.NewReader(newGenLinked(*blocks))
+	if *conc != 1 {
+		_ = zr.Apply(lz4.ConcurrencyOption(*conc))
+	}
+	var total int64
+	allA := true
+	check := func(p []byte) {
+		total += int64(len(p))
+		if allA && bytes.Count(p, []byte{'A'}) != len(p) {
+			allA = false
+		}
+	}
+	var err error
+	panicked := ""
+	func() {
+		defer func() {
+			if r := recover(); r != nil {
+				panicked = fmt.Sprint(r)
+			}
+		}()
+		if *mode == "writeto" {
+			_, err = zr.WriteTo(writerFunc(func(p []byte) (int, error) { check(p); return len(p), nil }))
+		} else {
+			b := make([]byte, *buf)
+			for {
+				var n int
+				n, err = zr.Read(b)
+				check(b[:n])
+				if err != nil {
+					break
+				}
+			}
+			if err == io.EOF {
+				err = nil
+			}
+		}
+	}()
+	printJSON(rec{"blocks": *blocks, "expected": int64(*blocks) * (4 << 20), "delivered": total, "allA": allA, "err": classify(err), "panicked": panicked})
+	return nil
+}
+
+type writerFunc func(p []byte) (int, error)
+
+func (f writerFunc) Write(p []byte) (int, error) { return f(p) }
